@@ -21,7 +21,7 @@ CHECK = dict(
                 "numProp, inconsistent run vectors on import, out-of-range triangle indices for Merge/WriteOBJ, non-epsilon-valid polygons for Triangulate) are "
                 "skipped in both worlds: what the C++ library does there is C09/C10's subject. A crash inside the C++ mirror is reported with the suffix "
                 "'[in the C++ mirror]' and is a library defect, not a binding defect."),
-    runs=[S("seq-asan", quick=600, thorough=3000, workers=8, case_timeout=120),
+    runs=[S("seq-asan", quick=600, thorough=2400, workers=8, case_timeout=120),
           S("seq-fast", quick=150, thorough=900, workers=8, case_timeout=60)],
     rule=("phases: coverage (one case per exported function), sizes (13 types + pair), enums (15+3+4 enumerators), pool (every seed object, both storage modes, leak-checked), "
           "d1 (every row x every combination of compatible pool objects), d2 (every pair of rows in which an input of the second has the type of a result of the first, "
